@@ -1,2 +1,74 @@
-(** Property C01 -- end-to-end call transparency.  Statements only (proofs: Proofs/EndToEndProofs.v). *)
+(** Property C01 — end-to-end call transparency across versions, transports and call styles.
+    Statements only (proofs: Proofs/EndToEndProofs.v; model: Model/EndToEnd.v, the value-level
+    composition of the Payload (C14), Dispatch (C02-C05) and Client (C06) models).
+
+    Quantification: EVERY callable table ([body], [sigs]), id generator [fresh] that never yields the
+    empty string, server version [srvf], registry [reg] in which the method name [m] (any non-empty string:
+    identifiers, dotted, Unicode, with spaces) is a registered function [f], notification pool or not,
+    class translation on or off on either side, client Config.version and ServerProxy(version=...) in
+    {absent, 1.0, 2.0}, EVERY positional list / keyword map of JSON values [a] that binds to [f], EVERY return
+    value that is JSON up to tuples, EVERY id counter and prior History.
+
+    Server class and transport do not appear: the model treats a byte-faithful transport as the identity on
+    texts; that the loopback, TCP, Unix-socket and pooled paths are byte-faithful is what the correspondence
+    stage checks on the real code (PARTIAL in that respect, see MANIFEST level_note).  MultiCall batches and
+    dotted instance paths are in the executable model (EndToEnd.multicall) and in the correspondence, without
+    a general theorem here. *)
+From Coq Require Import List String.
 From JR Require Import Val PyOps Payload Client Dispatch EndToEnd EndToEndProofs.
+Import ListNotations.
+
+(** a plain / dotted / Unicode-named call: the callable is entered exactly once with the arguments
+    (as JSON parses them), the proxy returns exactly its return value up to JSON normalisation, and
+    the History gains exactly the request and the response that were exchanged *)
+Theorem C01_single_call : forall body sigs fresh dv, (forall n, fresh n <> ""%string) ->
+  forall srvf reg pool sjc c m f a n h v,
+    ver_ok (pc_version (cl_cfg c)) -> carg_ok (cl_version c) ->
+    m <> ""%string -> lookup m (r_funcs reg) = Some f ->
+    args_json a = true ->
+    call_binds (sigs f) (entered a) = true ->
+    body f (entered a) = Return v -> dumpable v = true ->
+    proxy_call body sigs fresh dv srvf (mkSrv reg pool sjc) None c m a n h
+    = (Ok (norm v), [EvCall f (entered a)],
+       add_response (add_request h (request_value (req_v2 c) m a (fresh n)))
+                    (Some (resp_obj (reply_form (req_v2 c) srvf) (VStr (fresh n)) (norm v))),
+       S n).
+Proof. exact single_call. Qed.
+Print Assumptions C01_single_call.
+
+(** a client-side notification call returns None; the callable runs once (or one task is handed to the
+    notification pool), whatever it does; the response text is empty *)
+Theorem C01_single_notify : forall body sigs fresh dv srvf reg pool sjc c m f a n h,
+    ver_ok (pc_version (cl_cfg c)) -> carg_ok (cl_version c) ->
+    m <> ""%string -> lookup m (r_funcs reg) = Some f ->
+    args_json a = true ->
+    call_binds (sigs f) (entered a) = true ->
+    proxy_notify body sigs fresh dv srvf (mkSrv reg pool sjc) None c m a n h
+    = (Ok VNone,
+       (if pool then [EvEnqueue None m (entered a) (Some (reply_form (req_v2 c) srvf))] else [EvCall f (entered a)]),
+       add_response (add_request h (notify_value (req_v2 c) m a)) None,
+       S n).
+Proof. exact single_notify. Qed.
+Print Assumptions C01_single_notify.
+
+(** any sequence of calls on one proxy: results, invocations and History are those of the calls, in order *)
+Theorem C01_history_sequence : forall body sigs fresh dv, (forall n, fresh n <> ""%string) ->
+  forall srvf srv c cs n h,
+    ver_ok (pc_version (cl_cfg c)) -> carg_ok (cl_version c) ->
+    Forall (good body sigs srv) cs ->
+    run_calls body sigs fresh dv srvf srv c cs n h
+    = (map (fun s => Ok (norm (cs_v s))) cs,
+       map (fun s => EvCall (cs_f s) (entered (cs_a s))) cs,
+       expected_history fresh srvf c cs n h,
+       (n + length cs)%nat).
+Proof. exact call_sequence. Qed.
+Print Assumptions C01_history_sequence.
+
+Theorem C01_history_lengths : forall body sigs fresh dv, (forall n, fresh n <> ""%string) ->
+  forall srvf srv c cs n h,
+    ver_ok (pc_version (cl_cfg c)) -> carg_ok (cl_version c) -> Forall (good body sigs srv) cs ->
+    let h' := snd (fst (run_calls body sigs fresh dv srvf srv c cs n h)) in
+    length (h_requests h') = (length (h_requests h) + length cs)%nat /\
+    length (h_responses h') = (length (h_responses h) + length cs)%nat.
+Proof. exact history_lengths. Qed.
+Print Assumptions C01_history_lengths.
